@@ -596,7 +596,7 @@ fn builders_after(run: &mut Run, rng: &mut Rng, env: &Env, cr: &Creds, class: &s
         { let (b, tx) = c.verif_create_destroy_packet().unwrap(); ("refresh", b, tx, None, 0, vec![]) },
     ];
     let dl = *rng.pick(&[0usize, 5, 100]); let data = rng.bytes(dl);
-    while env.sent().is_some() {}
+    { let mut b = [0u8; 4096]; while env.server.try_recv_from(&mut b).is_ok() {} }
     env.rt.block_on(c.verif_send_indication(peer, &data)).unwrap();
     if let Some(b) = env.sent() { let tx: [u8; 12] = b[8..20].try_into().unwrap(); built.push(("sendind", b, tx, Some(peer), 0, data.clone())); } else { run.count("udp_loopback_loss"); }
     for (kind, b, tx, p, n, d) in built {
